@@ -98,6 +98,7 @@ class SimFS(object):
         self.crashed = False
         self.saw_eof = False
         self.enabled = True
+        self.root = None            # real directory mirroring durable content (so os.stat & co. work); never logged
 
     # -- fault plan ---------------------------------------------------------
     def used(self):
@@ -115,7 +116,7 @@ class SimFS(object):
         """Counts an FS event; fires the fault scheduled at this event number.
         Returns a torn-byte count if a crash fires during a write."""
         self.nevents += 1
-        self.ctx.log.emit("fs", op=op, path=path, **kw)
+        self.ctx.log.emit("fs", op=op, path=self.show(path), **kw)
         for f in self.faults:
             if f.get("at") == self.nevents and not f.get("done"):
                 f["done"] = True
@@ -130,6 +131,20 @@ class SimFS(object):
                         return int(f.get("torn", 0))
                     raise SimCrash("crash at fs event %d (%s %s)" % (self.nevents, op, path))
         return None
+
+    def show(self, path):
+        """stable name for the event log (the real mirror directory has a random name)"""
+        if self.root and path.startswith(self.root):
+            return "/sim" + path[len(self.root):]
+        return path
+
+    def mirror(self, path):
+        """copies the durable bytes of path to the real mirror directory (metadata calls such as
+        os.stat / os.path.exists on the path then behave as on a real disk)"""
+        if self.root and path.startswith(self.root):
+            import os as _os
+            with _os.fdopen(_os.open(path, _os.O_WRONLY | _os.O_CREAT | _os.O_TRUNC, 0o644), "wb") as fh:
+                fh.write(bytes(self.files.get(path, b"")))
 
     def restart(self):
         """After a crash: the disk survives, every handle is gone."""
@@ -146,7 +161,7 @@ class SimFS(object):
         if path in self.open_faults:
             name = self.open_faults[path]
             self.nevents += 1
-            self.ctx.log.emit("fs", op="open", path=path, mode=m, err=name)
+            self.ctx.log.emit("fs", op="open", path=self.show(path), mode=m, err=name)
             self.ctx.fault("fs_open_" + name)
             self.errors_fired += 1
             raise OSError(getattr(errno, name), "%s (simulated)" % name, path)
